@@ -251,6 +251,10 @@ def stress2_extra(pid, mode=None):
                 runs.append({k: d[k] for k in ("threads", "millis", "operations", "min_total_seen", "max_total_seen", "final_total", "keys_balance", "panic_count", "hung")})
                 res["evaluations"] += d["operations"]
                 rep = dict(threads=threads, millis=millis, seed=seed + n, replay="./.build/target/debug/cached-verif-harness stress2 %d %d %d%s" % (threads, millis, seed + n, " " + mode if mode else ""), observed=d)
+                if pid == "C07" and d.get("unreadable_but_present"):
+                    res["failures"].append(dict(rep, signature="unreadable-key-rejected-as-existing-under-concurrency", no_shrink=True, what="after a concurrent run without any time-to-live, with every acknowledgement completed, keys %s read as absent and a put of them is rejected as already existing" % d["unreadable_but_present"]))
+                if pid == "C07" and d.get("accepted_put_unreadable"):
+                    res["failures"].append(dict(rep, signature="accepted-put-unreadable-after-racing-delete", no_shrink=True, what="delete(k) raced with 'wait until k reads as absent, then put k until accepted': with both acknowledged the accepted put of keys %s is not readable (and a further put is rejected as already existing)" % d["accepted_put_unreadable"]))
                 if pid == "C17" and d["panic_count"]:
                     res["failures"].append(dict(rep, signature="caller-panicked-under-stress", no_shrink=True, what="%d valid calls panicked in a concurrent run, e.g. %s" % (d["panic_count"], d["panics"][:1])))
                 if d["hung"]:
@@ -423,7 +427,7 @@ PROPS.update({
     "C04": dict(module="C04", run=mk("C04", ["general", "ttl", "awaited", "queue1"], 250, 4000), components=["store", "api", "queue_worker", "weights", "ticker"]),
     "C05": dict(module="C05", run=mk("C05", ["general", "queue1", "ttl", "evict", "evict2"], 250, 4000, extra=stress_quiescent_extra("C05", stress2_extra("C05"))), components=["weights", "store", "api", "queue_worker", "ticker", "admission"]),
     "C06": dict(module="C06", run=mk("C06", ["evict2", "evict", "general"], 270, 4000), components=["admission", "weights", "sketch", "tinylfu", "store"]),
-    "C07": dict(module="C07", run=mk("C07", ["general", "ttl", "awaited"], 250, 4000), components=["store", "api", "time", "queue_worker"]),
+    "C07": dict(module="C07", run=mk("C07", ["general", "ttl", "awaited"], 250, 4000, extra=stress2_extra("C07", "nottl")), components=["store", "api", "time", "queue_worker"]),
     "C08": dict(module="C08", modules=["C08", "C08_window"], run=mk("C08", ["general", "ttl", "roomy", "ttlchain", "upsertpipe"], 250, 4000, extra=window_extra("C08", monitor=True)), components=["store", "api", "ticker", "weights", "time", "queue_worker"]),
     "C09": dict(module="C09", run=mk("C09", ["ttl", "general", "ttlchain"], 250, 4000), components=["store", "time", "api", "ticker"]),
     "C10": dict(module="C10", modules=["C10", "C10_window"], run=mk("C10", ["ttl", "general", "ttlchain"], 250, 4000, extra=window_extra("C10", monitor=True)), components=["ticker", "weights", "store", "api", "time"]),
